@@ -55,25 +55,20 @@ def subst_table(kind: str, lang: str):
     t['Symbol'] = [(set(), SELF)]
     for c in ('Implies', 'App'):
         t[c] = [(set(), C(c, REC('L'), REC('R')))]
-    if lang == 'rust':
-        # the checker substitutes under binders only after the capture check of the binder's own sort
-        own_fresh = ('fresh', kind, 'plug', 'v')
-        other_fresh = ('fresh', 's' if kind == 'e' else 'e', 'plug', 'v')
-        t[own_binder] = [({(('eq', 'v', 'var'), True)}, SELF),
-                         ({(('eq', 'v', 'var'), False), (own_fresh, True)}, C(own_binder, F('v'), REC('S'))),
-                         ({(('eq', 'v', 'var'), False), (own_fresh, False)}, 'raise')]
-        t[other_binder] = [({(other_fresh, True)}, C(other_binder, F('v'), REC('S'))),
-                           ({(other_fresh, False)}, 'raise')]
-        t['MetaVar'] = [(set(), C(wrap, SELF, VAR, PLUG))]
-    else:
-        # the generator's substitution is used on closed notation bodies and trusts the checker for capture:
-        # shadowing is required, capture checks are not
-        t[own_binder] = [({(('eq', 'v', 'var'), True)}, SELF),
-                         ({(('eq', 'v', 'var'), False)}, C(own_binder, F('v'), REC('S')))]
-        t[other_binder] = [(set(), C(other_binder, F('v'), REC('S')))]
-        lst = 'e_fresh' if kind == 'e' else 's_fresh'
-        t['MetaVar'] = [({(('in', 'var', lst), True)}, SELF),
-                        ({(('in', 'var', lst), False)}, C(wrap, SELF, VAR, PLUG))]
+    # One table for both languages.  Substitution goes under a binder only after the capture check of the binder's own sort
+    # (otherwise it must refuse: `raise`); at its own binder it stops; on a metavariable declared fresh for the variable it is the
+    # identity, otherwise deferred.  (Earlier revisions of this table had a weaker Python column - no capture checks, and a
+    # Rust column without the freshness shortcut; both were genuine disagreements between generator and checker, see DESIGN.md 5.)
+    own_fresh = ('fresh', kind, 'plug', 'v')
+    other_fresh = ('fresh', 's' if kind == 'e' else 'e', 'plug', 'v')
+    t[own_binder] = [({(('eq', 'v', 'var'), True)}, SELF),
+                     ({(('eq', 'v', 'var'), False), (own_fresh, True)}, C(own_binder, F('v'), REC('S'))),
+                     ({(('eq', 'v', 'var'), False), (own_fresh, False)}, 'raise')]
+    t[other_binder] = [({(other_fresh, True)}, C(other_binder, F('v'), REC('S'))),
+                       ({(other_fresh, False)}, 'raise')]
+    lst = 'e_fresh' if kind == 'e' else 's_fresh'
+    t['MetaVar'] = [({(('in', 'var', lst), True)}, SELF),
+                    ({(('in', 'var', lst), False)}, C(wrap, SELF, VAR, PLUG))]
     t['ESubst'] = [(set(), C(wrap, SELF, VAR, PLUG))]          # deferred on pending substitutions
     t['SSubst'] = [(set(), C(wrap, SELF, VAR, PLUG))]
     return t
